@@ -23,7 +23,7 @@ from .. import shrink as S
 from ..common import h64
 from ..monitors import c12_lines as O
 from ..ref import CL, ref_run
-from ..tsu import StepHeart, build
+from ..tsu import StepHeart, build, gen_parser
 
 ID = 'C12'
 LEVEL = 'exploration'
@@ -516,8 +516,9 @@ def walk_real(v, out, depth=0):
             walk_real(x, out, depth + 1)
 
 
-def judge_tree(result, ref, text, value_sensitive):
-    """-> (problems, stats)   problems: [(sigpart, human text)]"""
+def judge_tree(result, ref, text, value_sensitive, uncached=frozenset()):
+    """-> (problems, stats)   problems: [(sigpart, human text)]
+    uncached: names of rules that run without memoization / off the call stack (evidence counters only)"""
     Lo = O.Lines(text)
     ev = {}
     for (rule, pos, end, val) in ref.events:
@@ -527,7 +528,8 @@ def judge_tree(result, ref, text, value_sensitive):
     problems = []
     stats = {'nodes': 0, 'ast': 0, 'node': 0, 'value': 0, 'after_ws': 0, 'line_nonzero': 0, 'at_eot': 0,
              'node_text_none': 0, 'node_text_ok': 0, 'endline_other': 0, 'distinct_rules': set(),
-             'plain_dict_open_corner': 0}
+             'plain_dict_open_corner': 0, 'at_eot_after_break': 0, 'uncached': 0, 'uncached_after_ws': 0,
+             'uncached_after_break': 0}
     seen = set()
     for kind, x in nodes:
         if id(x) in seen:
@@ -581,17 +583,26 @@ def judge_tree(result, ref, text, value_sensitive):
                 problems.append((f'value:{kind}',
                                  f'{kind} {short(cx)} carries parseinfo ({rule!r},{pos},{endpos}) but that evaluation '
                                  f'returned {short(cref(ev[key][0]))}'))
-        # start line
+        # start line: the line of `pos` = number of line breaks before it; a start at len(text) is one past the
+        # last character (after a trailing line break that is the new, empty last line)
         if isinstance(pos, int) and 0 <= pos <= len(text):
-            ok_lines = O.line_candidates(Lo, pos)
-            if line not in ok_lines:
+            want = Lo.at(pos)[0] if pos < len(text) else Lo.onepast()[0]
+            if line != want:
                 where = Lo.kind(pos)
                 if where in ('end-of-text', 'empty-text'):
-                    tag = f'line=linecount:{where}' if line == Lo.editor_linecount else f'line:{where}'
+                    tag = f'line=clamped:{where}' if line == Lo.clamped()[0] else f'line:{where}'
                 else:
                     tag = 'line:in-text'
                 problems.append((tag, f'parseinfo of rule {rule!r} has pos={pos} line={line}; splitter oracle: line '
-                                      f'{sorted(ok_lines)} (text {short(text)!r}, len {len(text)})'))
+                                      f'{want} (text {short(text)!r}, len {len(text)})'))
+            if pos == len(text) and Lo.ends_with_break:
+                stats['at_eot_after_break'] += 1
+            if rule in uncached:
+                stats['uncached'] += 1
+                if pos and text[pos - 1] in ' \n\r\t':
+                    stats['uncached_after_ws'] += 1
+                if pos and text[pos - 1] in '\n\r':
+                    stats['uncached_after_break'] += 1
             if pos and pos <= len(text) and text[pos - 1] in ' \n\r\t':
                 stats['after_ws'] += 1
             if line:
@@ -657,6 +668,9 @@ class PCase:
         self.lexical = {k: v for k, v in g.directives.items() if k in LEXICAL}
         self.build_error = None
         self.model = None
+        self.cls = None
+        self.decorated = any(d in ('nomemo', 'nostak') for r in g.rules for d in r.decorators)
+        self.uncached = frozenset(r.name for r in g.rules if any(d in ('nomemo', 'nostak') for d in r.decorators))
         self.alt = text_syntax_alt
         self.src = L.grammar_text(self.gm)
         # end-position wrappers (DESIGN 2.1), one per rule: VTS<i> = v:<rule> r:VTREST ; VTREST = /(?s).*/ ;
@@ -667,7 +681,7 @@ class PCase:
         extra.append(L.Rule('VTREST', L.Pat('(?s).*')))
         gw = L.Grammar(list(self.gm.rules) + extra, dict(self.gm.directives), tuple(self.gm.keywords))
         try:
-            if variant.route == 'text':
+            if variant.route == 'text' or (variant.route == 'generated' and text_syntax_alt):
                 import tatsu
                 src = L.grammar_text(gw)
                 if text_syntax_alt:
@@ -675,7 +689,19 @@ class PCase:
                 self.model = tatsu.compile(src, name='T')
             else:
                 self.model = build(gw, route='object')
+            if variant.route == 'generated':
+                # the real code generator: it marks every rule its left-recursion analysis leaves unmemoized
+                # with @tatsu.nomemo (evidence: which of our rules those are)
+                self.cls = gen_parser(self.model)[0]
+                try:
+                    names = {r.name for r in g.rules}
+                    self.uncached = self.uncached | frozenset(
+                        r.name for r in self.model.rules
+                        if r.name in names and not r.memoizable and not r.is_lrec)
+                except Exception:  # noqa: BLE001 - internal names: evidence only
+                    pass
         except Exception as e:  # noqa: BLE001
+            self.model = None
             self.build_error = (type(e).__name__, str(e)[:200])
 
     def sem_kw(self):
@@ -696,7 +722,8 @@ class PCase:
         heart = StepHeart(5000 + 60 * n * n * (len(text) + 1) * (len(text) + 1))
         try:
             inp = make_input(text, self.v.impl, self.lexical)
-            res = self.model.parse(inp, start=self.wrap[start], heart=heart, **kw)
+            parser = self.cls() if self.cls is not None else self.model
+            res = parser.parse(inp, start=self.wrap[start], heart=heart, **kw)
             return 'ok', (res['v'], len(text) - len(res['r']))
         except FailedParse as e:
             return 'fail', e
@@ -754,7 +781,7 @@ def check_pcase(acc, pc: PCase, start, text, origin, shrink=True):
         acc.count('b_value_disagreement_c01_domain')
         return set()
     acc.count('b_accepted')
-    problems, st = judge_tree(res, r, text, value_sensitive)
+    problems, st = judge_tree(res, r, text, value_sensitive, pc.uncached)
     acc.count('b_nodes_checked', st['nodes'])
     acc.count('b_ast_nodes', st['ast'])
     acc.count('b_model_nodes', st['node'])
@@ -762,6 +789,10 @@ def check_pcase(acc, pc: PCase, start, text, origin, shrink=True):
     acc.count('b_after_leading_ws', st['after_ws'])
     acc.count('b_line_nonzero', st['line_nonzero'])
     acc.count('b_pos_at_end_of_text', st['at_eot'])
+    acc.count('b_pos_at_end_of_text_after_trailing_break', st['at_eot_after_break'])
+    acc.count('b_nodes_of_uncached_rules', st['uncached'])
+    acc.count('b_nodes_of_uncached_rules_after_leading_ws', st['uncached_after_ws'])
+    acc.count('b_nodes_of_uncached_rules_after_line_break', st['uncached_after_break'])
     acc.count('b_node_text_none(outside statement)', st['node_text_none'])
     acc.count('b_node_text_ok', st['node_text_ok'])
     acc.count('b_endline_not_line_of_endpos(outside statement)', st['endline_other'])
@@ -775,6 +806,10 @@ def check_pcase(acc, pc: PCase, start, text, origin, shrink=True):
         acc.count('b_impl:' + v.impl)
         acc.count('b_route:' + v.route)
         acc.count('b_mode:' + v.mode)
+        if pc.decorated:
+            acc.count('b_accepted_decorated_nomemo_nostak')
+        if v.route == 'generated' and pc.uncached:
+            acc.count('b_accepted_generated_with_uncached_rules')
         acc.nontriv('b', L.grammar_text(pc.gm), start, text, v.json())
     if not problems:
         return set()
@@ -816,7 +851,7 @@ def shrink_b(pc, start, text, first):
         vs = not (r.nonw or r.triggers)
         if vs and cref(a[2]) != creal(res):
             return False
-        probs, _ = judge_tree(res, r, t2, vs)
+        probs, _ = judge_tree(res, r, t2, vs, c.uncached)
         for p in probs:
             if p[0] == part:
                 found[(L.grammar_text(g2), t2)] = p
@@ -845,8 +880,10 @@ def enrich(rng, s, comments):
         s = ''.join(out)
     if rng.random() < 0.35:
         s = rng.choice(seps) + s
-    if rng.random() < 0.25:
+    if rng.random() < 0.35:
         s = s + rng.choice(seps)
+    if rng.random() < 0.04:
+        s = rng.choice([' ', '\n', ' \n', '\r\n', '\r', '\n\n', '  \r\n ', '\n \r'] + seps)
     return s
 
 
@@ -869,14 +906,21 @@ def random_case(rng, i):
             body = G.normalise(L.Named(rng.choice(['n', 'm', 'k']), body))
         rules.append(L.Rule(r.name, body))
     mode = ('ast', 'ast', 'asmodel', 'builder')[i % 4]
+    route = 'text' if i % 13 == 0 else 'generated' if i % 6 == 3 else 'object'
+    if route == 'generated' and mode == 'asmodel':
+        mode = 'builder'      # generated parsers take a semantics object
     if mode != 'ast':
         rules = [L.Rule(r.name, r.body, params=(TYPE_NAMES[r.name],)) if rng.random() < 0.5 else r for r in rules]
+    if rng.random() < 0.4:
+        # @nomemo / @nostak only change caching and tracing: REF ignores them, parseinfo must not move
+        rules = [L.Rule(r.name, r.body, rng.choice([('nomemo',), ('nostak',), ('nomemo', 'nostak')]), r.params)
+                 if rng.random() < 0.55 else r for r in rules]
     directives = {}
     if rng.random() < 0.2:
         directives['eol_comments'] = '#[^\\n\\r]*'
     g = L.Grammar(rules, directives)
     variant = Variant(enable=('directive', 'setting')[(i // 4) % 2],
-                      route='text' if i % 13 == 0 else 'object',
+                      route=route,
                       impl=('str', 'Buffer', 'str', 'TextLines', 'Buffer')[i % 5],
                       mode=mode)
     return g, variant
@@ -935,12 +979,30 @@ def _typed_grammars():
     ], {'eol_comments': '#[^\\n\\r]*'}), ['1', '22', ';', ';', 'k', 'ab', ':', ',', '3']))
     # left recursion
     out.append(('leftrec', L.Grammar([
-        L.Rule('start', Sq((N('e', C('expr')), L.EOF()))),
+        L.Rule('start', Sq((N('e', C('expr')), N('ts', L.Clo(C('more'))), L.EOF()))),
+        L.Rule('more', Sq((T(','), N('x', C('expr'))))),     # a cycle rule entered with blanks pending
         L.Rule('expr', Ch((C('add'), C('num')))),
         L.Rule('add', Sq((N('l', C('expr')), T('+'), N('r', C('num')))), params=('Add',)),
         L.Rule('num', N('d', P(r'\d+')), params=('Num',)),
-    ]), ['1', '22', '+', '+', '3']))
+    ]), ['1', '22', '+', '+', '3', ',']))
+    # nullable rules that match at the very end, after trailing blanks / line breaks (their start is len(text))
+    out.append(('tails', L.Grammar([
+        L.Rule('start', Sq((N('xs', L.Clo(C('word'))), N('t', C('tail')), N('g', C('gap')), N('e', C('ending')),
+                            N('q', C('opt')), L.EOF()))),
+        L.Rule('word', N('w', P(r'[a-z]+')), params=('Word',)),
+        L.Rule('tail', N('n', L.Const('1')), params=('Tail',)),
+        L.Rule('gap', N('v', L.Void())),
+        L.Rule('ending', L.Clo(L.NamedList('k', T('!'))), params=('Ending',)),
+        L.Rule('opt', L.Opt(N('o', T('?')))),
+    ]), ['ab', 'c', 'xyz', '!', '?', 'ab']))
     return out
+
+
+def decorated(g):
+    """the same grammar with @nomemo / @nostak spread over its rules (caching and tracing only)"""
+    cyc = [('nomemo',), ('nostak',), ('nomemo', 'nostak')]
+    return L.Grammar([L.Rule(r.name, r.body, cyc[j % 3], r.params, r.kwparams, r.base) for j, r in enumerate(g.rules)],
+                     dict(g.directives), tuple(g.keywords))
 
 
 SEPS = [' ', ' ', '', '\n', '\r\n', '\r', '  ', '\n\n', '\n  ', ' \r\n']
@@ -980,10 +1042,15 @@ def typed_derived(rng, name):
         toks = [rng.choice(['1', '22']) for _ in range(rng.randrange(0, 4))] + [';']
         for j in range(rng.randrange(0, 3)):
             toks += ([','] if j else []) + [rng.choice(['k', 'ab']), ':', rng.choice(['3', '44'])]
+    elif name == 'tails':
+        toks = [rng.choice(['ab', 'c', 'xyz']) for _ in range(rng.choice([0, 0, 1, 2, 3]))]
+        toks += ['!'] * rng.choice([0, 0, 0, 1, 2]) + ['?'] * rng.choice([0, 0, 1])
     else:
-        toks = [rng.choice(['1', '22'])]
-        for _ in range(rng.randrange(0, 4)):
-            toks += ['+', rng.choice(['3', '4'])]
+        toks = []
+        for j in range(rng.choice([1, 1, 2, 3])):
+            toks += ([','] if j else []) + [rng.choice(['1', '22'])]
+            for _ in range(rng.randrange(0, 4)):
+                toks += ['+', rng.choice(['3', '4'])]
     return toks
 
 
@@ -993,19 +1060,24 @@ def run_typed(desc, acc):
     for i in range(desc['n']):
         rng = random.Random(h64('C12', 'typed', desc['seed'], desc['shard'], i))
         gi = i % len(grammars)
-        name, g, vocab = grammars[gi]
-        variant = Variant(enable=('directive', 'setting')[(i // 4) % 2], route='text',
-                          impl=('str', 'Buffer', 'TextLines')[(i // 8) % 3],
-                          mode=('asmodel', 'builder', 'ast', 'asmodel')[(i // 24) % 4])
-        alt = bool((i // 4) % 4 < 2)
-        key = (gi, variant.enable, variant.mode, alt)
+        name, g0, vocab = grammars[gi]
+        route = rng.choice(['text', 'text', 'generated'])
+        mode = rng.choice(['asmodel', 'builder', 'ast'])
+        if route == 'generated' and mode == 'asmodel':
+            mode = 'builder'
+        variant = Variant(enable=rng.choice(['directive', 'setting']), route=route,
+                          impl=rng.choice(['str', 'Buffer', 'TextLines']), mode=mode)
+        deco = rng.random() < 0.5
+        alt = variant.enable == 'directive' and route == 'text'     # `rule::Type =` vs `rule[Type] =`
+        key = (gi, variant.enable, variant.mode, route, deco)
         if key not in cases:
-            cases[key] = PCase(g, variant, text_syntax_alt=alt)
+            cases[key] = PCase(decorated(g0) if deco else g0, variant, text_syntax_alt=alt)
             if cases[key].model is not None:
-                acc.count('b_typed_models_compiled')
+                acc.count('b_typed_models_built')
         base = cases[key]
+        g = base.g
         if base.model is None:
-            acc.violation(f'b:exc:build:{base.build_error[0]}', f'compiling typed grammar {name} failed: {base.build_error}',
+            acc.violation(f'b:exc:build:{base.build_error[0]}', f'building typed grammar {name} failed: {base.build_error}',
                           {'part': 'typed-build', 'name': name})
             continue
         pc = PCase.__new__(PCase)
@@ -1023,6 +1095,12 @@ def run_typed(desc, acc):
                 text = G.mutate(rng, text, ''.join(vocab) + ' \n')
         else:
             text = typed_input(rng, vocab, comments)
+        if name == 'tails':
+            k = rng.random()
+            if k < 0.15:
+                text = ''.join(rng.choice([' ', '\n', '\r\n', '\r']) for _ in range(rng.randrange(1, 5)))
+            elif k < 0.75:
+                text = text.rstrip() + rng.choice(['\n', '\r\n', '\r', ' \n', '\n\n', '\n \r\n', ' \r', '\n  '])
         start = 'start' if rng.random() < 0.8 else rng.choice(g.rules[1:]).name
         acc.count('b_typed_cases')
         check_pcase(acc, pc, start, text, {'mode': 'typed', 'shard': desc['shard'], 'i': i, 'grammar': name},
